@@ -1,6 +1,6 @@
 (* extract/Entry_E5b.v — typed shapes on the wire; might_paint and subpath pruning. *)
 From Coq Require Import ZArith QArith List Bool Ascii String.
-From Pico Require Import Num PyStr Value G_geom G_transform Walk Skia Shape Clip Reuse Entry_E1 Entry_E3 Entry_E5a.
+From Pico Require Import Num PyStr Value G_geom G_transform Walk Skia Shape Clip Reuse Structure Clips Entry_E1 Entry_E3 Entry_E5a.
 Import ListNotations.
 Local Open Scope string_scope.
 
@@ -37,11 +37,23 @@ Fixpoint keep_painting (MO : MathOps QOps) (sk : @skia QOps) (sh : @shape QOps) 
 Definition remove_empty_subpaths (MO : MathOps QOps) (sk : @skia QOps) (sh : @shape QOps) : result (@path QOps) :=
   keep_painting MO sk sh (subpaths (N:=QOps) (s_d sh)).
 
+Definition opt_aff_b (v : value) : option (Affine2D QOps) := match v with VL _ => Some (aff_of v) | _ => None end.
+Definition clipdef_of (v : value) : @clipdef QOps :=
+  mk_clipdef (opt_aff_b (arg 1 v)) (map (fun c => (shape_of (arg 0 c), opt_aff_b (arg 1 c))) (getL (arg 2 v)))
+             (match arg 3 v with VS s => Some s | _ => None end)
+             (match arg 4 v with VS s => Some s | _ => None end).
+Definition lookup_of (v : value) : string -> option (@clipdef QOps) :=
+  fun id => match find (fun e => getS (arg 0 e) =? id) (getL v) with Some e => Some (clipdef_of e) | None => None end.
+
 Definition entry_E5b (orc : oracle) (name : string) (v : value) : option value :=
   let MO := QMath orc in let sk := QSkia orc in
   if name =? "might_paint" then Some (v_res VB (might_paint MO sk (shape_of v)))
   else if name =? "apply_style" then Some (v_res v_shape (apply_style (N:=QOps) (shape_of v)))
   else if name =? "remove_empty_subpaths" then Some (v_res v_path (remove_empty_subpaths MO sk (shape_of v)))
+  else if name =? "resolve_clip" then
+    Some (v_res v_path (resolve_clip MO sk 16 (lookup_of (arg 0 v)) (getS (arg 1 v)) (aff_of (arg 2 v))))
+  else if name =? "clip_leaf" then
+    Some (v_res v_path (clip_leaf MO sk (path_of (arg 0 v)) (rule_of_v (arg 1 v)) (map path_of (getL (arg 2 v)))))
   else if name =? "affine_between" then
     Some (v_res (v_opt v_aff) (affine_between_code MO (path_of (arg 0 v)) (path_of (arg 1 v)) (getQ (arg 2 v))))
   else if name =? "apply_affine" then Some (v_path (apply_affine MO (aff_of (arg 0 v)) (path_of (arg 1 v))))
